@@ -181,7 +181,8 @@ def c035(ctx):
     from ..inline import inline_calls, contains
     for ap_ in sidecar_appenders(P):
         _c035_one(ctx, inline_calls(P, P.fn(ap_), lambda body, callee, w_=contains(rx_calls=r'std::io::Write>::write_all$'): callee.startswith('ripd::continuity_stream_cache::') and w_(body, callee), depth=2, note=ctx.note))
-    app = P.fn('rip_log::EventLog::append')
+    from .common import log_append_body
+    app = log_append_body(P)
     sw_on_event = []
     evp = [i for i in range(1, app.argc + 1) if 'rip_kernel::Event' in (app.lty(i) or '')]
     for (bi, on, ts, els) in switches(app):
